@@ -18,6 +18,8 @@ pub enum VKind {
     Array,
     Inline,
     DottedInInline,
+    FlatArrays,
+    FlatInlines,
 }
 #[derive(Clone, Copy, Debug, PartialEq)]
 pub enum HKind {
@@ -73,6 +75,21 @@ impl Case {
                     s.push('=');
                     close.push("}".to_string());
                 }
+                // d EMPTY containers next to each other (no nesting beyond the enclosing array): `[[], [], .. , 1]`
+                VKind::FlatArrays => {
+                    s.push('[');
+                    for _ in 0..*d {
+                        s.push_str("[], ");
+                    }
+                    close.push("]".to_string());
+                }
+                VKind::FlatInlines => {
+                    s.push('[');
+                    for _ in 0..*d {
+                        s.push_str("{}, ");
+                    }
+                    close.push("]".to_string());
+                }
             }
         }
         s.push('1');
@@ -86,7 +103,13 @@ impl Case {
         format!("header={:?}x{} dotted-key x{} values={:?}", self.header.0, self.header.1, self.dotted, self.values)
     }
     /// exactly one construct is nested (all others absent or at depth 1): returns its depth
+    pub fn is_flat(&self) -> bool {
+        self.values.iter().any(|(k, _)| matches!(k, VKind::FlatArrays | VKind::FlatInlines))
+    }
     pub fn single(&self) -> Option<usize> {
+        if self.is_flat() {
+            return None;
+        }
         let mut deep = Vec::new();
         if self.header.0 != HKind::None && self.header.1 > 1 {
             deep.push(self.header.1);
@@ -173,6 +196,23 @@ pub fn cases(tier: Tier) -> Vec<Case> {
             out.push(Case { header: (HKind::None, 0), dotted: 1, values: vec![(VKind::DottedInInline, d); reps] });
             out.push(Case { header: (HKind::Std, d), dotted: d, values: vec![(VKind::DottedInInline, d); reps] });
         }
+    }
+    // flat documents: many EMPTY containers side by side, nested at most two deep - a recursion counter that is not
+    // given back on some path (an early return between enter and exit) turns them into "too deep"
+    for n in [l - 1, l, l + 1, 4 * l] {
+        for k in [VKind::FlatArrays, VKind::FlatInlines] {
+            out.push(Case { header: (HKind::None, 0), dotted: 1, values: vec![(k, n)] });
+            out.push(Case { header: (HKind::Std, 2), dotted: 2, values: vec![(VKind::Array, 1), (k, n)] });
+            out.push(Case { header: (HKind::Aot, 1), dotted: 1, values: vec![(VKind::Inline, 1), (k, n)] });
+        }
+    }
+    // depths at which a NARROWER counter wraps around (u8, u16): far beyond the limit, so they must be refused
+    for d in [255usize, 256, 257, 65535, 65536, 65537, 65536 + l - 1] {
+        out.push(Case { header: (HKind::Std, d), dotted: 1, values: vec![] });
+        out.push(Case { header: (HKind::Aot, d), dotted: 1, values: vec![] });
+        out.push(Case { header: (HKind::None, 0), dotted: d, values: vec![] });
+        out.push(Case { header: (HKind::None, 0), dotted: 1, values: vec![(VKind::DottedInInline, d)] });
+        out.push(Case { header: (HKind::None, 0), dotted: 1, values: vec![(VKind::Array, d)] });
     }
     out
 }
@@ -402,6 +442,10 @@ fn run_build(rep: &mut Report, tier: Tier, exe: &std::path::Path, build: &'stati
         if v == "REJ-LIMIT" {
             acc.bump("rejected-recursion-limit");
             acc.nontrivial(label.as_bytes());
+            if c.is_flat() {
+                acc.viol("U-nest", label, None, "a flat document (empty containers side by side, nested at most 3 deep) was rejected with the recursion-limit error".into());
+                continue;
+            }
             if let Some(d) = single {
                 if d < calibrated_limit() {
                     acc.viol("U-nest", label, None, format!("a single construct nested {} deep (below the limit the library enforces on its reference constructs) was rejected", d));
